@@ -2,11 +2,14 @@
 Model of `ear.fileio.bw64.writer.Bw64Writer` on a `BytesIO` (C09 / C17).
 
 The writer is a literal sequence of "append at the end" and "patch at offset" operations
-on the buffer, in the order the Python methods perform them.  PCM encoding belongs to
-another property: `write` takes the already encoded, interleaved sample bytes.
+on the buffer, in the order the Python methods perform them.  The byte-level `WOp.write` takes the
+already encoded, interleaved sample bytes; the sample-level `SOp.write` (at the end of this file)
+takes the float samples and runs `interleave` and `encode_pcm_samples` of `Model/Pcm.lean` on them,
+as `Bw64Writer.write` does.
 Core Lean only.
 -/
 import Earverif.Model.Bw64Bytes
+import Earverif.Model.Pcm
 
 namespace Earverif.Bw64
 
@@ -187,6 +190,91 @@ def Fmt.packable (f : Fmt) : Bool :=
   f.channels < 2 ^ 16 && f.rate < 2 ^ 32 && f.bytesPerSecond < 2 ^ 32 && f.blockAlign < 2 ^ 16 && f.bits < 2 ^ 16
 
 def WOp.packable : WOp → Bool
+  | .write _ => true
+  | .setChna v => chnaPackable v
+  | .setAxml v => bytesPackable v
+  | .setBext v => bytesPackable v
+
+/-! ### the hypotheses of the C09/C17 theorems as executable tests (the driver reports them) -/
+
+/-- `FmtOK` (Proofs/C09Read.lean) as a Boolean: PCM 16/24/32 bit, at least one channel, positive rate,
+fields within their `struct` widths. -/
+def Fmt.okB (f : Fmt) : Bool :=
+  (f.bits == 16 || f.bits == 24 || f.bits == 32) && decide (1 ≤ f.channels) && decide (1 ≤ f.rate) &&
+    decide (f.channels < 2 ^ 16) && decide (f.rate < 2 ^ 32) && decide (f.bytesPerSecond < 2 ^ 32) &&
+    decide (f.blockAlign < 2 ^ 16)
+
+/-- the reader would warn about this entry: an `AC_` reference without the `_00` suffix -/
+def ChnaEntry.warns (e : ChnaEntry) : Bool :=
+  decide (((e.enc.drop 14).take 14).take 3 = [65, 67, 95]) && !decide (((e.enc.drop 14).take 14).drop 11 = [95, 48, 48])
+
+/-- `ChnaOK` as a Boolean: packable and no entry the reader would warn about -/
+def chnaOkB : Option (List ChnaEntry) → Bool
+  | none => true
+  | some es => decide (es.length < 2 ^ 16) &&
+      es.all (fun e => decide (e.trackIndex < 2 ^ 16) && e.rest.length == 38 && !e.warns)
+
+/-! ### sample-level `write` (C09 + C16) -/
+
+/-- The bytes `Bw64Writer.write(samples)` appends for a frames × channels block given as a list of
+rows: `assert np.array(samples).shape[1] == self.channels` (a block whose rows do not all have
+`channels` entries never reaches the encoder: `none`), then
+`encode_pcm_samples(interleave(samples), self.bitdepth)` (`none` for an unsupported bit depth). -/
+def encodeBlock (fmt : Fmt) (frames : List (List Rat)) : Option Bytes :=
+  if frames.all (fun fr => fr.length == fmt.channels) then
+    Pcm.encodeBytes fmt.bits (Pcm.interleave fmt.channels frames)
+  else none
+
+/-- What a client does between construction and `close`, with `write` taking float samples
+(exact rationals of the float64 values, see `Model/Ieee.lean`). -/
+inductive SOp where
+  | write (frames : List (List Rat))         -- `write(samples)`
+  | setChna (v : Option (List ChnaEntry))
+  | setAxml (v : Option Bytes)
+  | setBext (v : Option Bytes)
+
+/-- one client call on the writer state; `none` = the call raises -/
+def stepS (s : WState) : SOp → Option WState
+  | .write frames =>
+    match encodeBlock s.fmt frames with
+    | some b => some { s with buf := s.buf ++ b, dataBytes := s.dataBytes + b.length }
+    | none => none
+  | .setChna v => some { s with chna := v }
+  | .setAxml v => some { s with axml := v }
+  | .setBext v => some { s with bext := v }
+
+def runS (s : WState) : List SOp → Option WState
+  | [] => some s
+  | op :: ops =>
+    match stepS s op with
+    | some s' => runS s' ops
+    | none => none
+
+/-- The bytes in the buffer after `close`, for a history of sample-level calls. -/
+def closedFileS (fmt : Fmt) (chna : Option (List ChnaEntry)) (axml bext : Option Bytes) (force : Bool)
+    (ops : List SOp) : Option Bytes :=
+  (runS (openW fmt chna axml bext force) ops).map closeW
+
+/-- The bytes in the buffer if the writer is abandoned without `close`. -/
+def unclosedFileS (fmt : Fmt) (chna : Option (List ChnaEntry)) (axml bext : Option Bytes) (force : Bool)
+    (ops : List SOp) : Option Bytes :=
+  (runS (openW fmt chna axml bext force) ops).map (·.buf)
+
+/-- the byte-level call a sample-level call amounts to -/
+def SOp.enc (fmt : Fmt) : SOp → Option WOp
+  | .write frames => (encodeBlock fmt frames).map .write
+  | .setChna v => some (.setChna v)
+  | .setAxml v => some (.setAxml v)
+  | .setBext v => some (.setBext v)
+
+def encOps (fmt : Fmt) : List SOp → Option (List WOp)
+  | [] => some []
+  | op :: ops =>
+    match SOp.enc fmt op, encOps fmt ops with
+    | some w, some ws => some (w :: ws)
+    | _, _ => none
+
+def SOp.packable : SOp → Bool
   | .write _ => true
   | .setChna v => chnaPackable v
   | .setAxml v => bytesPackable v
